@@ -265,7 +265,7 @@ func c17(c *ctx) {
 			}
 		}
 	}
-	sres, err := cp.Run(sreqs, corpus.RunOpts{CPUSeconds: 900, WallSeconds: 2400})
+	sres, err := cp.Run(sreqs, corpus.RunOpts{CPUSeconds: 240, WallSeconds: 2400})
 	if err != nil {
 		die("shipped run: %v", err)
 	}
